@@ -4867,6 +4867,11 @@ func (c *BytecodeCompiler) compileGenericMethodCallNode(node *ast.GenericMethodC
 }
 
 func (c *BytecodeCompiler) compileMethodCall(receiver ast.ExpressionNode, op *token.Token, nameNode ast.IdentifierNode, args []ast.ExpressionNode, tailCall bool, location *position.Location) {
+	if c.isGenerator || c.isAsync {
+		// generators and async functions get resumed through their own call frame,
+		// it cannot be replaced by the frame of the called method
+		tailCall = false
+	}
 	name := identifierToName(nameNode)
 
 	switch op.Type {
